@@ -19,6 +19,7 @@ type MsgOpts struct {
 	MaxList      int  // elements per list / map
 	MaxBytes     int  // string / bytes length
 	FillRequired bool // always populate required fields (initialised trees)
+	RequiredOmit int  // with FillRequired: omit each required field with probability 1/RequiredOmit (0 = never)
 	Unknown      bool // generate unknown fields
 	Extensions   bool // populate registered extensions of extendable messages
 	ValidUTF8    bool // valid UTF-8 in every string field, validated or not (JSON-representable)
@@ -92,6 +93,9 @@ func DrawMessage(t *rapid.T, md protoreflect.MessageDescriptor, o MsgOpts) *mode
 	if o.FillRequired {
 		for _, fd := range cands {
 			if fd.Cardinality() == protoreflect.Required {
+				if o.RequiredOmit > 0 && rapid.IntRange(0, o.RequiredOmit-1).Draw(t, "omitrequired") == 0 {
+					continue
+				}
 				pick(fd)
 			}
 		}
@@ -201,7 +205,7 @@ func itoa(u uint64) string {
 func drawVal(t *rapid.T, fd protoreflect.FieldDescriptor, o MsgOpts) (model.Val, bool) {
 	if sub := fd.Message(); sub != nil {
 		if o.Depth <= 0 {
-			if sub.RequiredNumbers().Len() > 0 && o.FillRequired {
+			if sub.RequiredNumbers().Len() > 0 && o.FillRequired && o.RequiredOmit == 0 {
 				return model.Val{}, false // cannot build an initialised value within the depth budget
 			}
 			return model.Val{M: &model.Msg{}}, true
